@@ -15,6 +15,7 @@ oracle     the property's own statement evaluated on the real XML and on what th
 import glob
 import io
 import json
+import multiprocessing
 import os
 
 from corr.harness import COQ, REPO, VERIF, _run, coq_build, exc_name, run_model
@@ -33,6 +34,7 @@ TB = [
 ]
 ASSUME = [
     "placeholders on layouts, masters and notes masters are p:sp elements (true of all 67 decks under /repo); a p:pic or p:graphicFrame carrying p:ph on a layout is outside the model and such decks are skipped and counted",
+    "every layout part is related to the slide master that lists it (tests/test_files/missing_rels_item.pptx is a deliberately damaged package whose layout has no .rels item: skipped and counted)",
     "inheritance follows the idx link: the layout counterpart of a slide placeholder is the FIRST layout placeholder with the same idx; with duplicate idx values in one layout (e.g. two placeholders without idx attribute) later clones report the geometry of the first, theorem C13_inherit_dup_idx_refuted; the oracle judges those cases against the first match and counts them (class dup-idx)",
     "same-order is judged on the shape tree (z-order); slide.placeholders iterates sorted by idx (stable), which the model and the oracle check separately",
     "slides present in a corpus deck before the case starts are opaque to the model (only their layout reference is modelled); the oracle checks them byte-for-byte",
@@ -203,6 +205,7 @@ class Deck:
             populate(prs.notes_master._element.cSld.spTree, pop["nm"])
         self.slides0 = [s.part for s in prs.slides]
         self.new_parts = []          # slide parts created during the case (objects)
+        self.cache = {}
         sld_rids = {s.rId for s in prs.part._element.get_or_add_sldIdLst()}
         self.rels0 = {rid for rid, r in prs.part.rels.items() if r.reltype == RT.SLIDE and rid not in sld_rids}
 
@@ -211,8 +214,13 @@ class Deck:
         for m in self.masters:
             if not ph_sps(m._element.cSld.spTree)[1]:
                 return False
-        for l in self.layouts:
+        for i, l in enumerate(self.layouts):
             if not ph_sps(l._element.cSld.spTree)[1]:
+                return False
+            # a layout part must be related to the master that lists it (missing_rels_item.pptx
+            # ships a layout without its .rels item: a damaged package, outside the property)
+            ms = [r.target_part for r in l.part.rels.values() if r.reltype == self.RT.SLIDE_MASTER and not r.is_external]
+            if len(ms) != 1 or ms[0] is not self.masters[self.layout_master[i]].part:
                 return False
         nm = self.notes_master_part()
         if nm is not None and not ph_sps(nm._element.cSld.spTree)[1]:
@@ -278,14 +286,50 @@ class Deck:
                 if r.reltype == self.RT.SLIDE and rid not in listed and rid not in self.rels0]
 
     def show(self):
+        """Whole observable state.  Pieces are cached and recomputed only when an operation may
+        have touched what they depend on (see invalidate); that other parts do not change
+        under add_slide / notes_slide is checked byte-for-byte by the oracle."""
         prs = self.prs
-        slides = "!".join(self.show_slide(s.part) for s in prs.slides)
+        c = self.cache
+
+        def memo(kind, key, f):
+            k = (kind, key)
+            if k not in c:
+                c[k] = f()
+            return c[k]
+
+        slides = "!".join(memo("s", id(s.part), lambda: self.show_slide(s.part)) for s in prs.slides)
         orph = "!".join("%d:%s" % (r.target_part.partname.idx, self.show_slide(r.target_part)) for r in self.orphan_rels())
-        lays = "!".join(";".join(self.show_shape(p) for p in l.placeholders) for l in self.layouts)
-        mas = "!".join(";".join(self.show_shape(p) for p in m.placeholders) for m in self.masters)
+        lays = "!".join(memo("l", i, lambda: ";".join(self.show_shape(p) for p in l.placeholders)) for i, l in enumerate(self.layouts))
+        mas = "!".join(memo("m", i, lambda: ";".join(self.show_shape(p) for p in m.placeholders)) for i, m in enumerate(self.masters))
         nm = self.notes_master_part()
-        nms = "-" if nm is None else ";".join(self.show_shape(p) for p in nm.notes_master.placeholders)
+        nms = "-" if nm is None else memo("k", 0, lambda: ";".join(self.show_shape(p) for p in nm.notes_master.placeholders))
         return "|".join([slides, orph, lays, mas, nms])
+
+    def invalidate(self, op):
+        toks = op.split(" ")
+        c = self.cache
+        kinds = set()
+        if toks[0] == "A":
+            return
+        if toks[0] == "X" or (toks[0] == "E" and toks[1] in ("s", "n")):
+            try:
+                part = self.prs.slides[int(toks[1] if toks[0] == "X" else toks[2])].part
+                c.pop(("s", id(part)), None)
+            except Exception:  # noqa
+                pass
+            return
+        if toks[0] == "N":
+            kinds = {"s", "k"}
+        elif toks[1] == "l":
+            kinds = {"s"}
+            c.pop(("l", int(toks[2])), None)
+        elif toks[1] == "m":
+            kinds = {"s", "l", "m"}
+        elif toks[1] == "k":
+            kinds = {"s", "k"}
+        for k in [k for k in c if k[0] in kinds]:
+            del c[k]
 
     # ---- operations
     def target(self, k, a, b):
@@ -373,6 +417,7 @@ def run_impl(case, oracle=None):
     outs = ["ok:@" + d.show()]
     for op in case["ops"]:
         r = d.apply(op, oracle)
+        d.invalidate(op)
         outs.append(r + "@" + d.show())
     if oracle:
         oracle.finish(d)
@@ -400,15 +445,17 @@ class Oracle:
     LATENT = ("dt", "ftr", "sldNum")
     NOTES = ("sldImg", "body", "sldNum")
 
-    def __init__(self, ck, case):
-        self.ck, self.case = ck, case
+    def __init__(self, case):
+        self.case = case
         self.classes = set()
+        self.found = []      # (sig, what, record): reported by the parent process in case order
 
     def bad(self, sig, what, op, extra=None):
         rec = {"entry_point": sig.split(":")[0], "input": self.case, "failing_op": op}
         if extra:
             rec.update(extra)
-        self.ck.violation(sig, what, rec)
+        if not any(f[0] == sig for f in self.found):
+            self.found.append((sig, what, rec))
 
     @staticmethod
     def ser(part):
@@ -445,7 +492,6 @@ class Oracle:
 
     def added(self, d, l, layout, slide, before, op):
         prs = d.prs
-        ck = self.ck
         # last, related
         slides = list(prs.slides)
         if not slides or slides[-1].part is not slide.part or len(slides) != len([p for p, _ in before if p.partname.startswith("/ppt/slides/")]) + 1:
@@ -622,11 +668,50 @@ def rand_value(rng, attr, malformed):
     return rng.choice([0, -914400, 457200, 1600200, MAXC, MINC])
 
 
-def gen_ops(rng, nlayouts, focus, nslides0, n, malformed=False):
-    """A history; slide indices refer to positions in prs.slides (existing slides come first)."""
+def deck_sizes(path, pop):
+    """Shape counts the generator uses to aim operations at shapes that exist (mostly)."""
+    from pptx import Presentation
+
+    key = path
+    if key not in _SIZES:
+        prs = Presentation(io.BytesIO(deck_bytes(path)))
+        lays = [l for m in prs.slide_masters for l in m.slide_layouts]
+        types = [[raw_key(raw_ph(e))[0] for e in ph_sps(l._element.cSld.spTree)[0]] for l in lays]
+        nmp = [r.target_part for r in prs.part.rels.values() if r.reltype.endswith("/notesMaster")]
+        nm = [raw_key(raw_ph(e))[0] for e in ph_sps(nmp[0]._element.cSld.spTree)[0]] if nmp else ["hdr", "dt", "sldImg", "body", "ftr", "sldNum"]
+        _SIZES[key] = (types, len(ph_sps(prs.slide_masters[0]._element.cSld.spTree)[0]), nm, len(prs.slides))
+    types, nmaster, nm, nslides = _SIZES[key]
+    types = [list(t) for t in types]
+    pop = pop or {}
+    ptypes = lambda specs: [(sp.get("type") or "obj") for sp in specs if sp.get("ph", True)]
+    if pop.get("layout") is not None:
+        types[pop["layout"][0]] = ptypes(pop["layout"][1])
+    if pop.get("master") is not None:
+        nmaster = len(ptypes(pop["master"]))
+    if pop.get("nm") is not None:
+        nm = ptypes(pop["nm"])
+    return {"layout": [len(t) for t in types],
+            "clone": [len([x for x in t if x not in Oracle.LATENT]) for t in types],
+            "master": nmaster, "notes": len([x for x in nm if x in Oracle.NOTES]), "nm": len(nm), "slides": nslides}
+
+
+_SIZES = {}
+
+
+def gen_ops(rng, sizes, focus, n, malformed=False):
+    """A history; slide indices refer to positions in prs.slides (existing slides come first).
+    Shape indices are aimed at shapes that should exist; one in ten is deliberately off."""
+    nlayouts = len(sizes["layout"])
     ops = []
-    new = []              # positions of slides added by this history (assuming success)
-    count = nslides0
+    new = {}              # position of a slide added by this history -> estimated shape count
+    notes = set()
+    count = sizes["slides"]
+
+    def pick(k):
+        if k <= 0 or rng.random() < 0.1:
+            return rng.randrange(k + 2)
+        return rng.randrange(k)
+
     for step in range(n):
         r = rng.random()
         if step == 0 or r < 0.3 or not new:
@@ -635,40 +720,52 @@ def gen_ops(rng, nlayouts, focus, nslides0, n, malformed=False):
                 l = nlayouts + rng.randrange(3)
             ops.append("A %d" % l)
             if l < nlayouts:
-                new.append(count)
+                new[count] = sizes["clone"][l]
                 count += 1
             continue
-        s = rng.choice(new)
+        s = rng.choice(sorted(new))
+        tgt = s
         if malformed and rng.random() < 0.15:
-            s = count + rng.randrange(3)
-        b = rng.randrange(7)
+            tgt = count + rng.randrange(3)
+        b = pick(new[s])
         if r < 0.42:
             a = rng.randrange(4)
-            ops.append("E s %d %d S %d %d" % (s, b, a, rand_value(rng, a, malformed)))
+            ops.append("E s %d %d S %d %d" % (tgt, b, a, rand_value(rng, a, malformed)))
         elif r < 0.52:
             name = "%s %d" % (rng.choice(NAME_POOL), rng.randint(1, 9))
-            ops.append("E s %d %d R %s" % (s, b, " ".join(str(ord(c)) for c in name)))
+            ops.append("E s %d %d R %s" % (tgt, b, " ".join(str(ord(c)) for c in name)))
         elif r < 0.58:
-            ops.append("E s %d %d D" % (s, b))
+            ops.append("E s %d %d D" % (tgt, b))
+            if tgt == s and b < new[s]:
+                new[s] -= 1
         elif r < 0.64:
-            ops.append("X %d %d %d %d %d" % (s, 914400, 914400, 1828800, 457200))
+            ops.append("X %d %d %d %d %d" % (tgt, 914400, 914400, 1828800, 457200))
+            if tgt == s:
+                new[s] += 1
         elif r < 0.72:
             a = rng.randrange(4)
-            ops.append("E l %d %d S %d %d" % (focus, b, a, rand_value(rng, a, malformed)))
+            ops.append("E l %d %d S %d %d" % (focus, pick(sizes["layout"][focus]), a, rand_value(rng, a, malformed)))
         elif r < 0.77:
-            ops.append("E l %d %d %s" % (focus, b, rng.choice(["C", "C", "D"])))
+            ops.append("E l %d %d %s" % (focus, pick(sizes["layout"][focus]), rng.choice(["C", "C", "C", "D"])))
         elif r < 0.82:
             a = rng.randrange(4)
-            ops.append("E m 0 %d %s" % (rng.randrange(5), rng.choice(["C", "S %d %d" % (a, rand_value(rng, a, malformed)), "D"])))
+            ops.append("E m 0 %d %s" % (pick(sizes["master"]), rng.choice(["C", "S %d %d" % (a, rand_value(rng, a, malformed)), "S %d %d" % (a, rand_value(rng, a, malformed)), "D"])))
         elif r < 0.9:
-            ops.append("N %d" % s)
+            ops.append("N %d" % tgt)
+            if tgt == s:
+                notes.add(s)
         elif r < 0.95:
             a = rng.randrange(4)
-            ops.append("E n %d %d %s" % (s, rng.randrange(4), rng.choice(["S %d %d" % (a, rand_value(rng, a, malformed)), "C", "D",
-                                                                              "R " + " ".join(str(ord(c)) for c in "Notes Placeholder 2")])))
+            if not notes:
+                ops.append("N %d" % s)
+                notes.add(s)
+            else:
+                ops.append("E n %d %d %s" % (rng.choice(sorted(notes)), pick(sizes["notes"]), rng.choice(
+                    ["S %d %d" % (a, rand_value(rng, a, malformed)), "S %d %d" % (a, rand_value(rng, a, malformed)), "C", "D",
+                     "R " + " ".join(str(ord(c)) for c in "Notes Placeholder 2")])))
         else:
             a = rng.randrange(4)
-            ops.append("E k 0 %d %s" % (rng.randrange(7), rng.choice(["S %d %d" % (a, rand_value(rng, a, malformed)), "C", "D"])))
+            ops.append("E k 0 %d %s" % (pick(sizes["nm"]), rng.choice(["S %d %d" % (a, rand_value(rng, a, malformed)), "C", "D"])))
     return ops
 
 
@@ -718,7 +815,7 @@ def gen_cases(tier, rng):
                      {"id": 4, "name": "c", "type": t, "idx": [None, 2, 7, 3][variant], "orient": "vert" if variant == 2 else None, "tx": False}]
             cases.append(("directed", {"deck": "default", "pop": {"layout": [6, specs]},
                                        "ops": ["A 6", "A 6", "E s 0 1 S 0 77", "E l 6 1 S 2 555", "A 6", "N 0", "A 1"]}))
-    n_gen = 260 if tier == "quick" else 4000
+    n_gen = 420 if tier == "quick" else 5000
     for i in range(n_gen):
         pop = {}
         li = rng.randrange(11)
@@ -729,16 +826,14 @@ def gen_cases(tier, rng):
             pop["nm"] = gen_population(rng, all_types, rng.randint(0, 8), "nm")
         malformed = i % 6 == 5
         cases.append(("malformed" if malformed else "generated",
-                      {"deck": "default", "pop": pop, "ops": gen_ops(rng, 11, li, 0, rng.randint(4, 14), malformed)}))
+                      {"deck": "default", "pop": pop, "ops": gen_ops(rng, deck_sizes("default", pop), li, rng.randint(4, 14), malformed)}))
     # histories on corpus decks that bring their own notes master
     with_nm = [p for p in corpus_files() if b"notesMasters/" in deck_bytes(p)]
     for p in with_nm:
         for _ in range(3 if tier == "quick" else 20):
             pop = {"nm": gen_population(rng, all_types, rng.randint(0, 8), "nm")} if rng.random() < 0.7 else {}
-            from pptx import Presentation
-            prs = Presentation(io.BytesIO(deck_bytes(p)))
-            nl = sum(len(mm.slide_layouts) for mm in prs.slide_masters)
-            cases.append(("notes-deck", {"deck": p, "pop": pop, "ops": gen_ops(rng, nl, rng.randrange(nl), len(prs.slides), rng.randint(5, 12))}))
+            sizes = deck_sizes(p, pop)
+            cases.append(("notes-deck", {"deck": p, "pop": pop, "ops": gen_ops(rng, sizes, rng.randrange(len(sizes["layout"])), rng.randint(5, 12))}))
     return cases
 
 
@@ -757,6 +852,23 @@ def nontrivial(case, out):
 
 
 # ----------------------------------------------------------------------------- run
+_CASES = []
+
+
+def _work(i):
+    """One history on the implementation with its oracle (worker process)."""
+    klass, case = _CASES[i]
+    orc = Oracle(case)
+    try:
+        fields, out = run_impl(case, orc)
+    except Exception as e:  # noqa
+        import traceback
+        orc.found.append(("harness-crash", "history %d crashed the harness: %r" % (i, e),
+                          {"input": case, "traceback": traceback.format_exc(), "theorem_or_correspondence": "harness"}))
+        return None, None, orc.found, []
+    return fields, out, orc.found, sorted(orc.classes)
+
+
 def translate(ck):
     rc, out = _run(["/venv/bin/python", os.path.join(VERIF, "tx", "tx_c13.py")], cwd=VERIF)
     if rc != 0:
@@ -781,14 +893,23 @@ def run(ck, tier, rng):
     fields_list, impl_out, kept = [], [], []
     skipped = 0
     dup_classes = {}
-    for klass, case in cases:
-        orc = Oracle(ck, case)
-        fields, out = run_impl(case, orc)
+    global _CASES
+    _CASES = cases
+    nproc = max(1, min(6 if tier == "quick" else 12, (os.cpu_count() or 2) // 2))
+    pool = multiprocessing.get_context("fork").Pool(nproc)
+    try:
+        results = pool.map(_work, range(len(cases)), chunksize=4)
+    finally:
+        pool.close()
+        pool.join()
+    for (klass, case), (fields, out, found, classes) in zip(cases, results):
+        for sig, what, rec in found:
+            ck.violation(sig, what, rec)
         if fields is None:
             skipped += 1
-            ck.dist["outside-model(non-sp placeholder)"] = ck.dist.get("outside-model(non-sp placeholder)", 0) + 1
+            ck.dist["outside-model(non-sp placeholder or layout without master relationship)"] = ck.dist.get("outside-model(non-sp placeholder or layout without master relationship)", 0) + 1
             continue
-        for c in orc.classes:
+        for c in classes:
             dup_classes[c] = dup_classes.get(c, 0) + 1
         fields_list.append(fields)
         impl_out.append(out)
@@ -857,16 +978,24 @@ def run(ck, tier, rng):
 def replay(rec):
     case = rec["input"]
     translate_quiet()
-    fields, out = run_impl(case, None)
+    orc = Oracle(case)
+    fields, out = run_impl(case, orc)
+    if fields is None:
+        print("deck is outside the model (non-sp placeholder or layout without master relationship)")
+        return 0
     mo = run_model("C13", [fields])[0]
     print("case", json.dumps(case)[:2000])
     ms, is_ = mo.split("#"), out.split("#")
     ops = ["<load>"] + list(case["ops"])
     for i, (a, b) in enumerate(zip(ms, is_)):
         print("step %d %-28s impl=%s model=%s%s" % (i, ops[i][:28], b.split("@")[0], a.split("@")[0], "" if a == b else "   <-- states differ"))
-    if rec.get("failing_op"):
-        print("failing op:", rec["failing_op"], "|", rec.get("what", ""))
-    return 0 if mo == out else 1
+    print("final state, implementation:", is_[-1].split("@", 1)[1][:1500])
+    print("final state, model         :", ms[-1].split("@", 1)[1][:1500])
+    for sig, what, r in orc.found:
+        print("ORACLE [%s] at op %r: %s" % (sig, r.get("failing_op"), what))
+    if not orc.found:
+        print("oracle: the property holds on this history")
+    return 0 if (mo == out and not orc.found) else 1
 
 
 def translate_quiet():
